@@ -421,8 +421,9 @@ package jmespath
 //@ func (*Parser).Parse
 //@   props C05
 //@   assigns Parser.expression, Parser.index, Parser.tokens
-//@   ensures {C03,C04} [accepts-exactly-the-grammar] len(tokens) >= 1 && tokens[len(tokens)-1].tokenType == tEOF ==> ((err == nil) <==> snd(specParse(tokens)))
-//@   ensures {C03,C04} [builds-the-tree-the-grammar-assigns] err == nil ==> same(result, fst(specParse(tokens))) && same(p.tokens, tokens)
+//@   ensures {C03,C04} [accepts-exactly-the-grammar] @internal len(tokens) >= 1 && tokens[len(tokens)-1].tokenType == tEOF ==> ((err == nil) <==> snd(specParse(tokens)))
+//@   ensures {C03,C04} [builds-the-tree-the-grammar-assigns] err == nil ==> same(result, fst(specParse(p.tokens))) && snd(specParse(p.tokens))
+//@   ensures {C03,C04} [tokens-kept] @internal err == nil ==> same(p.tokens, tokens)
 //@   ensures {C04,C05} [well-formed-ast] err == nil ==> wfNode(result)
 //@   ensures {C04} [never-an-empty-node] err == nil ==> result.nodeType != ASTEmpty
 //@   ensures {C17} [error-location] isSyntaxError(err) ==> err.Expression == expression && 0 <= err.Offset && err.Offset <= len(expression)
